@@ -61,6 +61,8 @@ def err_kind(e):
     s = str(e)
     if not isinstance(e, ValueError):
         return 'err:' + type(e).__name__
+    if '`offset` must be between 0 and' in s:
+        return 'err:offset'
     if "must be 0 for 'adjoint'" in s:
         return 'err:padconst-adjoint'
     if 'for order 0 padding' in s:
@@ -215,6 +217,8 @@ def case_plan_nd(ctx, count, nmax):
             if rng.random() < 0.05:
                 small = 0
             off = rng.randint(0, large - small)
+            if role == 'same' and rng.random() < 0.3:
+                off = rng.randint(1, 3)      # ignored on an axis of unchanged length
             # bias towards admissible paddings and their limits
             if padded and mode in ('periodic', 'symmetric') and rng.random() < 0.85:
                 lim = small if mode == 'periodic' else max(small - 1, 0)
@@ -227,6 +231,8 @@ def case_plan_nd(ctx, count, nmax):
                 small, large = small + 2, large + 2
             if padded and mode == 'order0' and small < 1 and rng.random() < 0.8:
                 small, large = small + 1, large + 1
+            if rng.random() < 0.03:
+                off = large - small + rng.randint(1, 2)   # refused: no placement
             if role == 'down':
                 s_in.append(large)
                 s_out.append(small)
@@ -280,7 +286,9 @@ def call_resize(case, arr, direction=None, shape=None, c=None):
 
 
 def valid_offsets(case):
-    return all(o + min(n, m) <= max(n, m)
+    """On a resized axis the smaller array must fit into the larger one at `offset`; on an axis
+    of unchanged length the offset is ignored."""
+    return all(n == m or o + min(n, m) <= max(n, m)
                for n, m, o in zip(case['shape'], case['newshape'], case['off']))
 
 
@@ -402,8 +410,6 @@ def model_lines(case, arr):
 
 
 def compare_model(ctx, case, desc, status, res, answers):
-    if not valid_offsets(case):
-        return
     a0 = answers[0]
     if status != 'ok':
         if a0 != status:
@@ -466,15 +472,18 @@ def array_stream(ctx, deep=False, model=True):
                           'the input array was modified by the call', desc)
             arr = arr0.copy()
         if not valid_offsets(case):
-            ctx.case(None)
-            ctx.err('offset-out-of-range:' + status.split(':')[0] +
-                    (':' + status.split(':')[1] if status != 'ok' else ''))
-            continue
-        problems = oracle_array(case, arr, status, res, deep or not quick)
+            # no placement of the smaller array inside the larger one: must be refused
+            problems = [] if status == 'err:offset' else [
+                'offset outside [0, |n_new - n_orig|] was not refused: ' +
+                (status if res is None else 'returned {}'.format(res.ravel().tolist()[:8]))]
+        else:
+            problems = oracle_array(case, arr, status, res, deep or not quick)
         if problems:
-            ctx.violation(key_of(case), '; '.join(problems)[:600], desc)
+            ctx.violation(key_of(case) + ('' if valid_offsets(case) else ' offset-out-of-range'),
+                          '; '.join(problems)[:600], desc)
         nontrivial = status == 'ok' and res.size > 1 and len(set(ilist(res))) > 1
-        cls = tuple(axis_class(mode, n, m, o) if d == 'forward' else axis_class(mode, m, n, o)
+        cls = tuple((axis_class(mode, n, m, o) if d == 'forward' else axis_class(mode, m, n, o))
+                    if n == m or o + min(n, m) <= max(n, m) else 'offset-out-of-range'
                     for n, m, o in zip(s_in, s_out, offs))
         sig = ('array', mode, d, len(s_in), cls, case['dtype'] in ('complex128',),
                case['outkind'] != 'none')
@@ -559,6 +568,15 @@ def malformed_stream(ctx):
          (ValueError,)),
         ('pad_const not castable', lambda: resize_array(x, (3, 3), pad_const=1.5), (ValueError,)),
         ('offset wrong length', lambda: resize_array(x, (3, 3), offset=[0, 0, 0]), (ValueError,)),
+        ('negative offset', lambda: resize_array(x, (4, 3), offset=[-1, 0]), (ValueError,)),
+        ('negative offset from the end', lambda: resize_array(np.arange(5), (3,), offset=-4),
+         (ValueError,)),
+        ('offset beyond the size difference', lambda: resize_array(np.arange(5), (3,), offset=4),
+         (ValueError,)),
+        ('offset beyond the larger array', lambda: resize_array(np.arange(1), (3,), offset=5),
+         (ValueError,)),
+        ('offset out of range in one of two resized axes',
+         lambda: resize_array(x, (4, 5), offset=[0, 3]), (ValueError,)),
         ('adjoint with pad_const', lambda: resize_array(x, (3, 3), pad_const=1,
                                                         direction='adjoint'), (ValueError,)),
     ]
@@ -853,7 +871,7 @@ def run(ctx):
     expected = ['{}/{}/{}'.format(m, d, c) for m in MODES for d in DIRS
                 for c in ('grow', 'shrink', 'same')]
     expected += ['reference/' + m for m in MODES] + ['discr-model', 'opadj-model']
-    expected_err = ['err:padconst-adjoint', 'err:order0-empty', 'err:order1-short',
+    expected_err = ['err:offset', 'err:padconst-adjoint', 'err:order0-empty', 'err:order1-short',
                     'err:periodic-too-long', 'err:symmetric-too-long']
     unhit = [b for b in expected if not ctx.branches.get(b)] + \
         [e for e in expected_err if not ctx.errors.get(e)]
@@ -880,10 +898,11 @@ def replay(ctx, case):
         arr = case_data(case)
         arr0 = arr.copy()
         status, res = call_resize(case, arr)
-        if not valid_offsets(case):
-            return None
         if ilist(arr) != ilist(arr0):
             return 'the input array was modified by the call'
+        if not valid_offsets(case):
+            return None if status == 'err:offset' else \
+                'offset outside [0, |n_new - n_orig|] was not refused: ' + status
         problems = oracle_array(case, arr, status, res, True)
         return '; '.join(problems) if problems else None
     if case.get('kind') == 'operator':
